@@ -125,6 +125,11 @@ def offenders(pid):
             for d in deny:
                 if d in ids:
                     out.append("%s: uses `%s`" % (p, d))
+        for p, ff in f.items():
+            for sp in strings(ff.get("ff_stdpaths", "")):
+                seg = sp.split("::")
+                if len(seg) < 2 or seg[0] not in ("core", "std") or seg[1] not in ("arch", "ops", "hash", "io", "fmt", "mem", "hint", "default", "ptr"):
+                    out.append("%s: uses `%s` (outside the allocation-free part of the standard library the crate is audited for)" % (p, sp))
         s = open(os.path.join(GEN, "SrcFacts.v")).read()
         m = re.search(r"Definition cargo_deps .*? := (.*?)\.\n", s)
         if m and m.group(1).strip() != "[]":
@@ -143,6 +148,10 @@ def offenders(pid):
             for d in deny:
                 if d in ids:
                     out.append("%s: uses `%s`" % (p, d))
+            for sp in strings(ff.get("ff_stdpaths", "")):
+                seg = sp.split("::")
+                if len(seg) < 2 or seg[1] not in ("arch", "ops", "hash", "io", "fmt", "mem", "hint", "default", "ptr"):
+                    out.append("%s: uses `%s`" % (p, sp))
     return out
 
 
